@@ -180,10 +180,10 @@ impl RuleFamily for Tags {
 
 /// Enumerator values at the boundaries of every underlying type.
 pub struct EnumBounds;
-const SHAPES: u64 = 12;
+const SHAPES: u64 = 15;
 impl RuleFamily for EnumBounds {
     fn name(&self) -> String {
-        "enum-boundary/17 underlying choices x optional x unchecked x compact x 12 enumerator shapes".into()
+        "enum-boundary/17 underlying choices x optional x unchecked x compact x 15 enumerator shapes".into()
     }
     fn len(&self) -> u64 {
         17 * 2 * 2 * 2 * SHAPES
@@ -209,7 +209,15 @@ impl RuleFamily for EnumBounds {
             8 => vec![e("A", None), e("B", None)],
             9 => vec![e("A", Some(hi)), e("B", None)],
             10 => vec![MEnumerator { c: MCommon::new("A"), fields: Some(vec![]), value: None }, e("B", Some(1))],
-            _ => vec![e("A", Some(1)), e("B", Some(0)), e("C", None)],
+            11 => vec![e("A", Some(1)), e("B", Some(0)), e("C", None)],
+            // fields (also tagged ones) on an enumerator that is not the first
+            12 => vec![e("A", None), MEnumerator { c: MCommon::new("B"), fields: Some(vec![MField::new("x", MType::prim("int32"))]), value: None }],
+            13 => vec![e("A", Some(0)), e("B", Some(1)), MEnumerator { c: MCommon::new("C"), fields: Some(vec![]), value: Some(MInt::spelled(2, "2")) }],
+            _ => {
+                let mut tagged = MField::new("t", MType::prim("int32").opt());
+                tagged.tag = Some(MInt::spelled(1, "1"));
+                vec![e("A", None), MEnumerator { c: MCommon::new("B"), fields: Some(vec![MField::new("x", MType::prim("bool")), tagged]), value: None }]
+            }
         };
         let mut d = en("E", prim.map(|p| if opt { MType::prim(p).opt() } else { MType::prim(p) }), ens);
         if let MDef::Enum(x) = &mut d {
@@ -643,7 +651,7 @@ impl RuleFamily for Attributes {
 
 /// Integer literal well-formedness.
 pub struct Literals;
-const LITS: [(&str, i128); 14] = [
+const LITS: [(&str, i128); 20] = [
     ("0x", 0),
     ("0b", 0),
     ("0b102", 0),
@@ -658,6 +666,13 @@ const LITS: [(&str, i128); 14] = [
     ("0b_", 0),
     ("9_", 9),
     ("0X1F", 0),
+    // values around the widths a tag or an enumerator is narrowed to
+    ("4294967296", 1 << 32),
+    ("4294967297", (1 << 32) + 1),
+    ("0x1_0000_0000_0000_0000", 1 << 64),
+    ("18446744073709551616", 1 << 64),
+    ("0x8000_0000", 1 << 31),
+    ("2147483647", (1 << 31) - 1),
 ];
 impl RuleFamily for Literals {
     fn name(&self) -> String {
@@ -801,8 +816,92 @@ impl RuleFamily for Pairs {
     }
 }
 
+
+/// The same attribute once on a container and once on something inside it (and on two unrelated siblings): an
+/// attribute is "repeated" only when it is written twice on ONE element.
+pub struct AttributeOnContainerAndMember {
+    attrs: Vec<MAttr>,
+}
+impl AttributeOnContainerAndMember {
+    pub fn new() -> Self {
+        let id = |s: &str| MArg::Ident(s.to_string());
+        AttributeOnContainerAndMember {
+            attrs: vec![
+                MAttr { directive: "deprecated".into(), args: None, trailing_comma: false },
+                MAttr { directive: "deprecated".into(), args: Some(vec![MArg::Str("why".into())]), trailing_comma: false },
+                MAttr { directive: "allow".into(), args: Some(vec![id("Deprecated")]), trailing_comma: false },
+                MAttr { directive: "compress".into(), args: Some(vec![id("Args")]), trailing_comma: false },
+                MAttr { directive: "cs::foreign".into(), args: Some(vec![id("x")]), trailing_comma: false },
+            ],
+        }
+    }
+}
+const ACM_PLACES: u64 = 9;
+impl RuleFamily for AttributeOnContainerAndMember {
+    fn name(&self) -> String {
+        format!("attribute-on-container-and-member/{} attributes x {} placements of two copies (container + member at every depth, two siblings, file + definition, module + definition) x {{both, twice on the inner one as well}}", self.attrs.len(), ACM_PLACES)
+    }
+    fn len(&self) -> u64 {
+        self.attrs.len() as u64 * ACM_PLACES * 2
+    }
+    fn get(&self, idx: u64) -> (Program, String) {
+        let also_twice = idx % 2 == 1;
+        let place = (idx / 2) % ACM_PLACES;
+        let a = &self.attrs[(idx / 2 / ACM_PLACES) as usize];
+        let one = || vec![a.clone()];
+        let inner = || if also_twice { vec![a.clone(), a.clone()] } else { vec![a.clone()] };
+        let i32t = || MType::prim("int32");
+        let mut f = MFile::module("M");
+        let mut s = MStruct { c: MCommon::new("S"), compact: false, fields: vec![MField::new("a", i32t()), MField::new("b", i32t())] };
+        let mut i = MInterface { c: MCommon::new("I"), bases: vec![], ops: vec![] };
+        let mut o = op("o", vec![MParam::new("p", i32t())], MRet::None);
+        let mut e = MEnum { c: MCommon::new("E"), compact: false, unchecked: false, underlying: None, enumerators: vec![MEnumerator { c: MCommon::new("A"), fields: Some(vec![MField::new("x", i32t())]), value: None }, enumerator("B")] };
+        match place {
+            0 => {
+                s.c.attrs = one();
+                s.fields[0].c.attrs = inner();
+            }
+            1 => {
+                s.fields[0].c.attrs = one();
+                s.fields[1].c.attrs = inner();
+            }
+            2 => {
+                i.c.attrs = one();
+                o.c.attrs = inner();
+            }
+            3 => {
+                o.c.attrs = one();
+                o.params[0].attrs = inner();
+            }
+            4 => {
+                e.c.attrs = one();
+                e.enumerators[0].c.attrs = inner();
+            }
+            5 => {
+                e.enumerators[0].c.attrs = one();
+                e.enumerators[0].fields.as_mut().unwrap()[0].c.attrs = inner();
+            }
+            6 => {
+                e.c.attrs = one();
+                e.enumerators[0].fields.as_mut().unwrap()[0].c.attrs = inner();
+            }
+            7 => {
+                f.file_attrs = one();
+                s.c.attrs = inner();
+            }
+            _ => {
+                f.module.as_mut().unwrap().attrs = one();
+                s.c.attrs = inner();
+            }
+        }
+        i.ops.push(o);
+        f.defs.extend([MDef::Struct(s), MDef::Interface(i), MDef::Enum(e)]);
+        (vec![f], format!("[{}] placement {place}{}", a.directive, if also_twice { " (and twice on the inner element)" } else { "" }))
+    }
+}
+
 pub fn families(tier: &str) -> Vec<Box<dyn Family>> {
-    let mut v: Vec<Box<dyn RuleFamily>> = vec![Box::new(Names), Box::new(Streams), Box::new(Literals), Box::new(EnumBounds), Box::new(Keys::new()), Box::new(Attributes::new()), Box::new(Tags), Box::new(Pairs { depth: 2 })];
+    let mut v: Vec<Box<dyn RuleFamily>> = vec![Box::new(Names), Box::new(Streams), Box::new(Literals), Box::new(EnumBounds), Box::new(Keys::new()), Box::new(Attributes::new()), Box::new(AttributeOnContainerAndMember::new()), Box::new(Tags), Box::new(Pairs { depth: 2 })];
     if tier != "quick" {
         v.push(Box::new(Pairs { depth: 3 }));
     }
